@@ -21,11 +21,14 @@ type trimWriter struct {
 // set, the current buffer is flushed before b is written.
 // Write only returns the bytes written to w during a flush.
 func (tw *trimWriter) Write(b []byte) (n int, err error) {
+	// Always flush first: what is already buffered (the previous write) may only be
+	// trimmed by a later TrimLeft if it is the text adjacent to that tag.
+	if n, err = tw.Flush(); err != nil {
+		return n, err
+	}
 	if tw.trim {
 		b = bytes.TrimLeftFunc(b, unicode.IsSpace)
 		tw.trim = false
-	} else if n, err = tw.Flush(); err != nil {
-		return n, err
 	}
 	_, err = tw.buf.Write(b)
 	return
